@@ -46,10 +46,11 @@ PROPS = {
         "level": "model_checking",
         "uses_vsched": True,
         "technique": "stateless model checking under a controlled scheduler with virtual time: delay-bounded schedules x cancel target/stage x peer behaviours (answers, late, never, stops draining)",
-        "claim": "(i) real sessions: two in-flight tool calls, which one is cancelled and when (early, at first idle moment, after return) plus schedule deviations; only the matching handler may observe ctx.Done, the caller returns with zero virtual time after cancel, the session stays usable; (ii) mcp call() over a scripted transport whose peer answers, answers after the cancel, never answers, or parks the request / the cancel notice write until its context ends: prompt return, the other in-flight call and later calls unaffected, nothing left after the 5s notice timeout; (iii) a raw peer with two gated tool calls in flight on a server session, optionally a third request reusing either id (refused), then notifications/cancelled for either id: exactly that handler observes ctx.Done, both calls are answered, the session answers a final ping",
+        "claim": "(i) real sessions: two in-flight tool calls, which one is cancelled and when (early, at first idle moment, after return) plus schedule deviations; only the matching handler may observe ctx.Done, the caller returns with zero virtual time after cancel, the session stays usable; (ii) mcp call() over a scripted transport whose peer answers, answers after the cancel, never answers, or parks the request / the cancel notice write until its context ends: prompt return, the other in-flight call and later calls unaffected, nothing left after the 5s notice timeout; (iii) a raw peer with two gated tool calls in flight on a server session, optionally a third request reusing either id (refused), then notifications/cancelled for either id: exactly that handler observes ctx.Done, both calls are answered, the session answers a final ping; (iv) a handler's nested server-to-client request abandoned while the tool call is in flight over streamable HTTP (with and without a standalone stream): the notifications/cancelled travels on the call's own exchange and names the abandoned request; (v) real client over in-process streamable HTTP (stateful legacy and stateless 2026-07-28 with PropagateRequestCancellation, SSE and JSON responses, with and without a second call in flight) and a scripted peer that sends JSON headers at once and the body late: the cancelled call returns at once with the context's error, exactly its server-side handler is cancelled, the other call and later calls succeed",
         "note": "two concurrent calls; budget-bounded schedules; virtual time (a return that needs a timer is a violation)",
         "parts": [
-            {"pkg": "mcp", "mode": "instr", "test": "TestVerifC04", "two_phase": True},
+            {"pkg": "mcp", "mode": "instr", "test": "TestVerifC04", "two_phase": True, "scenario_exclude": "http/"},
+            {"pkg": "mcp", "mode": "plain", "test": "TestVerifC04HTTP", "shards": 1, "scenario_prefix": "http/"},
             {"pkg": "mcp", "mode": "race", "test": "TestVerifC04", "scenario_prefix": "free-race/", "free_runs": {"quick": 60, "thorough": 600}},
         ],
         "assumptions": E1_ASSUME,
